@@ -5,6 +5,7 @@
    query point j (0 <= j < m).  The spatial tree of scikit-learn is NOT modelled: it is the Section
    variable `rq` ("radius query") constrained by the explicit hypothesis `rq_spec`. *)
 From Coq Require Import String ZArith QArith Qround List Bool Permutation.
+From Coq Require Uint63.
 Import ListNotations.
 
 (* ------------------------------------------------------------------------------------------- *)
@@ -143,7 +144,13 @@ Definition opt_Qeq (a b : option Q) : Prop :=
 
 (* ------------------------------------------------------------------------------------------- *)
 (* 4. Evaluation of generated cases (used by tools/props/c06.py through vm_compute)             *)
+(*    Numbers travel as primitive 63-bit integers (a Z literal of 13 digits costs ~0.7 ms to     *)
+(*    elaborate and ~2 ms to print; a primitive one 0.04 ms) and are turned into Z / nat here.   *)
 (* ------------------------------------------------------------------------------------------- *)
+Definition zi (x : PrimInt63.int) : Z := Uint63.to_Z x.
+Definition ni (x : PrimInt63.int) : nat := Z.to_nat (Uint63.to_Z x).
+Definition iz (z : Z) : PrimInt63.int := Uint63.of_Z z.
+
 (* the double mant / 2^k, exactly *)
 Definition pow2 (k : N) : positive := match k with N0 => 1%positive | Npos p => Pos.pow 2 p end.
 Definition dbl (mant : Z) (k : N) : Q := Qmake mant (pow2 k).
@@ -151,31 +158,34 @@ Definition km_to_um (q : Q) : Z := Qfloor (q * 1000000000).
 
 (* dense oracle matrix: row i = distances in micrometres (chord for Minkowski, great-circle arc for
    Haversine) from build point i to the query points 0..m-1 *)
-Definition oracle_m (mat : list (list Z)) (i j : nat) : Q := inject_Z (nth j (nth i mat []) (-1)%Z) / 1000000.
-Definition oracle_tree (R : Q) (mt : metric) (mat : list (list Z)) (i j : nat) : Q :=
+Definition far : PrimInt63.int := Uint63.of_Z 4000000000000000000.
+Definition oracle_m (mat : list (list PrimInt63.int)) (i j : nat) : Q :=
+  inject_Z (zi (nth j (nth i mat []) far)) / 1000000.
+Definition oracle_tree (R : Q) (mt : metric) (mat : list (list PrimInt63.int)) (i j : nat) : Q :=
   match mt with Minkowski => oracle_m mat i j | Haversine => oracle_m mat i j / R end.
 
-Definition show (l : list (nat * nat * Q)) : list (Z * Z * Z) :=
-  map (fun x => (Z.of_nat (fst (fst x)), Z.of_nat (snd (fst x)), km_to_um (snd x))) l.
+Definition show (l : list (nat * nat * Q)) : list (PrimInt63.int * PrimInt63.int * PrimInt63.int) :=
+  map (fun x => (iz (Z.of_nat (fst (fst x))), iz (Z.of_nat (snd (fst x))), iz (km_to_um (snd x)))) l.
 
-Definition obs_rq (obs : list (list (Z * Z * N))) (j : nat) : list (nat * Q) :=
-  map (fun x => (Z.to_nat (fst (fst x)), dbl (snd (fst x)) (snd x))) (nth j obs []).
+Definition obs_rq (obs : list (list (PrimInt63.int * PrimInt63.int * PrimInt63.int))) (j : nat) : list (nat * Q) :=
+  map (fun x => (ni (fst (fst x)), dbl (zi (snd (fst x))) (Z.to_N (zi (snd x))))) (nth j obs []).
 
-Definition shuffler_of (s : option (list Z)) : option (list nat) :=
-  match s with Some l => Some (map Z.to_nat l) | None => None end.
+Definition shuffler_of (s : option (list PrimInt63.int)) : option (list nat) :=
+  match s with Some l => Some (map ni l) | None => None end.
 
-(* one input (points as a dense matrix of oracle distances, metric, radius) *)
-Definition eval_spec (tbl : units_table) (R : Q) (mt : metric) (r : radius) (n m : Z) (mat : list (list Z))
-  : option (list (Z * Z * Z)) :=
+(* one input (points as a dense matrix of oracle distances, metric, radius): the specification *)
+Definition eval_spec (tbl : units_table) (R : Q) (mt : metric) (r : radius) (n m : PrimInt63.int)
+           (mat : list (list PrimInt63.int)) : option (list (PrimInt63.int * PrimInt63.int * PrimInt63.int)) :=
   match to_km tbl r with
   | None => None
-  | Some r_km => Some (show (geo_spec R mt r_km (Z.to_nat n) (Z.to_nat m) (oracle_tree R mt mat)))
+  | Some r_km => Some (show (geo_spec R mt r_km (ni n) (ni m) (oracle_tree R mt mat)))
   end.
 
 (* one run of the real code on that input: the shuffler read back and the answers of the tree as observed *)
-Definition eval_model (R : Q) (mt : metric) (m : Z) (s : option (list Z)) (obs : list (list (Z * Z * N)))
-  : list (Z * Z * Z) :=
-  show (geo_query R mt (shuffler_of s) (obs_rq obs) (Z.to_nat m)).
+Definition eval_model (R : Q) (mt : metric) (m : PrimInt63.int) (s : option (list PrimInt63.int))
+           (obs : list (list (PrimInt63.int * PrimInt63.int * PrimInt63.int)))
+  : list (PrimInt63.int * PrimInt63.int * PrimInt63.int) :=
+  show (geo_query R mt (shuffler_of s) (obs_rq obs) (ni m)).
 
 (* the radius the model hands to the tree, as a rational p/q printed as (p, q) *)
 Definition eval_r_tree (tbl : units_table) (R : Q) (mt : metric) (r : radius) : option (Z * Z) :=
